@@ -17,9 +17,9 @@ git checkout -q -- . 2>/dev/null
 git apply $M/patch.diff || { echo "patch does not apply in worktree"; exit 2; }
 pkgdir=$(dirname ${place#./})
 # suite with change, without demo
-mv $demo /tmp/_demo_hold.go
+mv $demo $M/_demo_hold.go
 suite=$(go test -vet=off -count=1 ./... 2>&1 | grep -v "no test files" | tr '\n' ' ')
-mv /tmp/_demo_hold.go $demo
+mv $M/_demo_hold.go $demo
 echo "with change, suite: $suite"
 with=$(cd $W/$pkgdir && go test -vet=off -count=1 -run "^${tname}\$" . 2>&1 | tail -1)
 echo "with change, demo: $with"
@@ -27,20 +27,18 @@ git apply -R $M/patch.diff
 without=$(cd $W/$pkgdir && go test -vet=off -count=1 -run "^${tname}\$" . 2>&1 | tail -1)
 echo "without change, demo: $without"
 git apply $M/patch.diff
-# now against /repo
-cd /repo
-[ -z "$(git status --short)" ] || { echo "/repo not clean"; exit 2; }
-if ! git apply --3way $M/patch.diff 2>/tmp/apply.err; then
-  if ! git apply $M/patch.diff 2>>/tmp/apply.err; then echo "patch does not apply to /repo: $(cat /tmp/apply.err | head -3)"; git reset -q --hard HEAD; exit 3; fi
-fi
-git reset -q 2>/dev/null
-go build ./... || { echo "does not build on /repo"; git reset -q --hard HEAD; exit 3; }
+# now against a scratch clone of /repo (never /repo itself), evidence redirected
+S=$(mktemp -d /tmp/trymut.XXXXXX)
+git clone -q /repo $S/repo || exit 2
+if ! (cd $S/repo && git apply $M/patch.diff 2>$M/apply.err); then echo "patch does not apply to /repo HEAD: $(head -3 $M/apply.err)"; rm -rf $S; exit 3; fi
+(cd $S/repo && go build ./...) || { echo "does not build on /repo HEAD"; rm -rf $S; exit 3; }
+export GOSYM_EVIDENCE_DIR=$S/evidence; mkdir -p $S/evidence
 cd /verif
-out=$(./check $PROP --tier $TIER 2>&1)
+out=$(./check $PROP --tier $TIER -repo $S/repo 2>&1)
 rc=$?
 echo "$out" | grep -E "VIOLATION|^  Verif|UNCONFIRMED|INCONCLUSIVE|^OK|KNOWN" | cut -c1-260 | head -12
 echo "check exit=$rc"
-cd /repo && git checkout -q -- . && git status --short
+rm -rf $S
 mkdir -p /verif/seeded/$ID
 cp $M/patch.diff /verif/seeded/$ID/patch.diff
 cp $M/demo_test.go.txt /verif/seeded/$ID/demo_test.go.txt
